@@ -167,10 +167,10 @@ static sobj *obj_new(void *addr, int kind) {
 /* event trace                                                                                 */
 enum { E_LOCK, E_UNLOCK, E_WAIT, E_WAKE, E_SIGNAL, E_BCAST, E_CREATE, E_JOIN, E_EXIT, E_MINIT,
        E_MDESTROY, E_CINIT, E_CDESTROY, E_CALL, E_RET, E_GONE, E_NEWCL, E_WFAIL, E_NOTE, E_PIPEW,
-       E_CLOSE, E_START };
+       E_CLOSE, E_START, E_ALLOC, E_ST, E_SOCK };
 static const char *ev_name[] = { "lock", "unlock", "wait", "wake", "signal", "bcast", "create", "join",
   "exit", "minit", "mdestroy", "cinit", "cdestroy", "call", "ret", "gone", "newcl", "wfail", "note",
-  "pipew", "close", "start" };
+  "pipew", "close", "start", "alloc", "st", "sock" };
 typedef struct { int thr, kind, serial, a; const char *s; } event;
 static event *evs; static size_t nev, capev;
 static int obj_serial_cls[1 << 20];  /* serial -> cls<<24 | (cid+1) ; filled at naming/print time */
@@ -203,7 +203,8 @@ static void dump_trace(void) {
     case E_CREATE: case E_JOIN: tname(e->a, b); printf("ev %s %s %s\n", a, ev_name[e->kind], b); break;
     case E_EXIT: case E_START: printf("ev %s %s\n", a, ev_name[e->kind]); break;
     case E_CALL: case E_RET: case E_NOTE: printf("ev %s %s %s %d\n", a, ev_name[e->kind], e->s ? e->s : "-", e->a); break;
-    case E_GONE: case E_NEWCL: case E_WFAIL: case E_PIPEW: case E_CLOSE:
+    case E_ST: printf("ev %s st %d %s\n", a, e->a, e->s); break;
+    case E_GONE: case E_NEWCL: case E_WFAIL: case E_PIPEW: case E_CLOSE: case E_ALLOC: case E_SOCK:
       printf("ev %s %s %d\n", a, ev_name[e->kind], e->a); break;
     default: oname(e->serial, b); printf("ev %s %s %s\n", a, ev_name[e->kind], b); break;
     }
@@ -286,11 +287,13 @@ static sthread *choose(sthread **en, int n, sthread *me, int me_enabled) {
   if (sched_mode == 1 && me_enabled && (int)(srand64() % 100) < stickiness) return me;
   return en[srand64() % n];
 }
+static void observe(void);
 /* the calling thread has set its own state; returns when it has been chosen to continue */
 static void sched_point(const char *where) {
   sthread *me = self, *en[MAXT], *next;
   int i, n, me_en;
   me->where = where;
+  if (me->role != 'P') observe();
   steps++; vtime_us += quantum_us;
   if (sched_mode == 2) {
     for (i = 0; i < pct_d; i++) if (steps == pct_cp[i]) me->prio = --pct_low;
@@ -350,10 +353,11 @@ static sthread *new_thread(char role, int cid) {
 /* client registry (roles, lock classes)                                                       */
 #define MAXCL 512
 typedef struct peer peer;
-typedef struct { rfbClientPtr cl; int cid, gone, live; peer *p; int sock, pipe_w; } clrec;
+typedef struct { rfbClientPtr cl; int cid, gone, live, hooked; peer *p; int sock, pipe_w; int obs_st, obs_sock; } clrec;
 static clrec clients[MAXCL];
 static int nclients;
 static rfbScreenInfoPtr scr;
+static int in_newclient;
 static void *list_mutex_addr;
 static void classify(sobj *o) {
   int i;
@@ -377,6 +381,20 @@ static void classify(sobj *o) {
     return;
   }
 }
+/* plain fields that steer control in other threads: a change made by the code that ran since the
+   calling thread's previous scheduling point is logged here, i.e. at its exact place in the global
+   order (nothing else has run in between) */
+static const char *st_class(int st) { return st == RFB_NORMAL ? "normal" : st == RFB_SHUTDOWN ? "shutdown" : "hs"; }
+static void observe(void) {
+  int i;
+  for (i = 0; i < nclients; i++) if (clients[i].live) {
+    rfbClientPtr cl = clients[i].cl; int so = cl->sock >= 0;
+    const char *c = st_class(cl->state);
+    int code = c[0];
+    if (code != clients[i].obs_st) { clients[i].obs_st = code; ev(E_ST, NULL, i, c); }
+    if (so != clients[i].obs_sock) { clients[i].obs_sock = so; if (!so) ev(E_SOCK, NULL, i, NULL); }
+  }
+}
 static void classify_all(void) { int i; for (i = 0; i < nobj; i++) if (objs[i].live) classify(&objs[i]); }
 static clrec *client_of(rfbClientPtr cl) {
   int i; for (i = nclients - 1; i >= 0; i--) if (clients[i].cl == cl && clients[i].live) return &clients[i];
@@ -385,10 +403,13 @@ static clrec *client_of(rfbClientPtr cl) {
 
 /* ------------------------------------------------------------------------------------------ */
 /* interposers: mutexes                                                                        */
+static void early_register(void *addr);
 int pthread_mutex_init(pthread_mutex_t *m, const pthread_mutexattr_t *a) {
   resolve();
   if (MANAGED()) {
-    sobj *o = obj_new(m, 0); int type = 0;
+    sobj *o; int type = 0;
+    early_register(m);
+    o = obj_new(m, 0);
     if (a) pthread_mutexattr_gettype(a, &type);
     o->recursive = (type == PTHREAD_MUTEX_RECURSIVE);
     classify(o);
@@ -625,7 +646,8 @@ ssize_t recv(int fd, void *b, size_t n, int fl) {
   return r_recv(fd, b, n, fl);
 }
 static int is_notify_pipe(int fd) {
-  int i; for (i = nclients - 1; i >= 0; i--) if (clients[i].live && clients[i].pipe_w == fd) return i;
+  int i; if (fd < 0) return -1;
+  for (i = nclients - 1; i >= 0; i--) if (clients[i].live && clients[i].pipe_w == fd) return i;
   return -1;
 }
 ssize_t write(int fd, const void *b, size_t n) {
@@ -671,7 +693,7 @@ struct peer {
   int updates, bells, cuts, converged, finished, used;
   int cid;                      /* server-side client id, -1 unknown */
   int connect_seq;
-  pthread_t th; int started;
+  pthread_t th; int started, th_joined;
   int closed_by_peer;
 };
 #define MAXPEER 64
@@ -856,6 +878,29 @@ out:
 
 /* ------------------------------------------------------------------------------------------ */
 /* hooks                                                                                       */
+static void gone_hook(rfbClientPtr cl);
+static clrec *register_client(rfbClientPtr cl) {
+  clrec *c; int i;
+  if (nclients >= MAXCL) die("too many clients");
+  c = &clients[nclients]; memset(c, 0, sizeof *c);
+  c->cl = cl; c->cid = nclients; c->live = 1; c->sock = cl->sock; c->pipe_w = -1; c->obs_st = 'h'; c->obs_sock = 1; nclients++;
+  for (i = 0; i < nclients - 1; i++) if (clients[i].cl == cl) clients[i].live = 0;   /* same address: the old one is dead */
+  ev(E_ALLOC, NULL, c->cid, NULL);
+  return c;
+}
+/* rfbNewTCPOrUDPClient initialises outputMutex first, after cl->screen has been set: the record
+   becomes known to the harness (client id, lock classes) from that moment on, also when its
+   creation fails before the application's newClientHook is reached */
+static void early_register(void *addr) {
+  rfbClientPtr cl; int i;
+  if (!scr || !self || (self->role != 'A' && self->role != 'L')) return;
+  for (i = nclients - 1; i >= 0; i--) if (clients[i].live && (char *)addr >= (char *)clients[i].cl && (char *)addr < (char *)clients[i].cl + sizeof(rfbClientRec)) return;
+  if (!in_newclient && self->role != 'L') return;
+  cl = (rfbClientPtr)((char *)addr - offsetof(rfbClientRec, outputMutex));
+  if (cl->screen != scr) return;
+  register_client(cl);
+  cl->clientGoneHook = gone_hook;
+}
 static void gone_hook(rfbClientPtr cl) {
   clrec *c = client_of(cl);
   if (!c) { int i; for (i = nclients - 1; i >= 0 && !c; i--) if (clients[i].cl == cl) c = &clients[i]; }
@@ -865,12 +910,9 @@ static void gone_hook(rfbClientPtr cl) {
   c->live = 0;      /* the record is freed soon after: never dereference it again */
 }
 static enum rfbNewClientAction new_client_hook(rfbClientPtr cl) {
-  clrec *c;
-  if (nclients >= MAXCL) die("too many clients");
-  c = &clients[nclients]; memset(c, 0, sizeof *c);
-  c->cl = cl; c->cid = nclients; c->live = 1; c->sock = cl->sock; c->pipe_w = -1; nclients++;
-  /* a record at the same address is necessarily dead by now */
-  { int i; for (i = 0; i < nclients - 1; i++) if (clients[i].cl == cl) clients[i].live = 0; }
+  clrec *c = client_of(cl);
+  if (!c) c = register_client(cl);
+  c->hooked = 1;
   cl->clientGoneHook = gone_hook;
   if (listen_mode && self && self->role == 'L') {
     if (accept_counter < connect_counter && pending_accept[accept_counter]) { c->p = pending_accept[accept_counter]; c->p->cid = c->cid; }
@@ -895,7 +937,9 @@ static void start_peer(peer *p) {
     next_role = 'P'; next_cid = p->idx;
     pthread_create(&p->th, NULL, peer_main, p);
     ev(E_CALL, NULL, 0, "newclient");
+    in_newclient = 1;
     cl = rfbNewClient(scr, sv[0]);
+    in_newclient = 0;
     if (cl) {
       if (nclients > before) { clients[nclients - 1].p = p; p->cid = clients[nclients - 1].cid; }
       rfbStartOnHoldClient(cl);
@@ -1092,7 +1136,7 @@ int main(void) {
         memset(p, 0, sizeof *p); p->idx = MAXPEER - 1; p->used = 1; p->kind = K_LEAVE; p->p1 = 1; p->fd = -1;
         start_peer(p);
         while (!p->finished && guard++ < 100000) vsleep_ms(5);
-        pthread_join(p->th, NULL);
+        pthread_join(p->th, NULL); p->th_joined = 1;
         /* let the server side notice the disconnect */
         guard = 0;
         while (p->cid >= 0 && clients[p->cid].gone == 0 && guard++ < 4000) vsleep_ms(5);
@@ -1150,7 +1194,7 @@ int main(void) {
       }
       for (k = 0; k < MAXPEER; k++) if (peers[k].used && peers[k].started) {
         if (!peers[k].finished) { dump_trace(); printf("res peer-stuck %d\n", k); }
-        else pthread_join(peers[k].th, NULL);
+        else if (!peers[k].th_joined) { pthread_join(peers[k].th, NULL); peers[k].th_joined = 1; }
       }
       guard_stray_threads();
       ev(E_CALL, NULL, 0, "cleanup");
@@ -1164,7 +1208,7 @@ int main(void) {
   sched_on = 0;
   dump_trace();
   { int alive, unj = lib_threads_unjoined(&alive), i;
-    for (i = 0; i < nclients; i++) printf("res gone cid=%d count=%d\n", clients[i].cid, clients[i].gone);
+    for (i = 0; i < nclients; i++) printf("res gone cid=%d count=%d hooked=%d\n", clients[i].cid, clients[i].gone, clients[i].hooked);
     printf("res threads lib_alive=%d lib_unjoined=%d total=%d\n", alive, unj, nthr);
     if (alive) dump_threads();
     for (i = 0; i < nobj; i++) if (objs[i].kind == 0 && objs[i].live && objs[i].owner) { char b[32]; oname(objs[i].serial, b); printf("res held-at-end %s\n", b); }
